@@ -1,0 +1,37 @@
+//go:build verif
+
+// Contracts for conv/p2j (dgv). Comment-only file.
+package p2j
+
+// unmarshalSingular, numeric kinds: the number handed to the formatter is the value the wire encodes for the
+// field's kind — zig-zag for sint32/sint64, sign-extended for int32/sfixed32/enum, zero-extended for the unsigned
+// 32-bit kinds; 64-bit signed kinds as they are. (uint64/fixed64 go through strconv.AppendUint and string/bytes/
+// message through other encoders: excluded by precondition, not under contract.)
+//@ pure jvar(t proto.Type, v uint64) int64 = ite(t == proto.INT32 || t == proto.ENUM, int64(int32(v)), ite(t == proto.SINT32, int64(protowire.unzz32(uint32(v))), \
+//@      ite(t == proto.UINT32, int64(uint32(v)), ite(t == proto.SINT64, protowire.unzz(v), int64(v)))))
+//@ pure isjvar(t proto.Type) bool = t == proto.INT32 || t == proto.ENUM || t == proto.SINT32 || t == proto.UINT32 || t == proto.SINT64 || t == proto.INT64
+
+//@ spec (*BinaryConv).unmarshalSingular
+//@   props C08 C06
+//@   timeout 40
+//@   requires ptrs: self != nil && p != nil && out != nil && fd != nil && !samerg(out, p) && !samerg(out, *out) && !samerg(p, *out) && !samerg(fd, *out) && !samerg(self, *out) && !samerg(p.Buf, *out) && !samerg(fd, p) && !samerg(fd, out)
+//@   requires kind: fd.typ != proto.MESSAGE && fd.typ != proto.STRING && fd.typ != proto.BYTE && fd.typ != proto.UINT64 && fd.typ != proto.FIX64 && \
+//@       fd.typ != proto.FLOAT      // written as disequalities so that the excluded branches are pruned (float32 -> float64 widening is outside the engine's arithmetic)
+//@   requires plain: !self.opts.Int642String
+//@   ensures vbad: isjvar(fd.typ) && old(binary.tagl(p)) == 0 ==> err != nil && len(*out) == old(len(*out))
+//@   ensures vadv: isjvar(fd.typ) && old(binary.tagl(p)) > 0 ==> err == nil && p.Read == old(p.Read) + old(binary.tagl(p))
+//@   ensures vlen: isjvar(fd.typ) && old(binary.tagl(p)) > 0 ==> len(*out) == old(len(*out)) + json.i64len(jvar(fd.typ, old(binary.tagv(p))))
+//@   ensures vdigits: isjvar(fd.typ) && old(binary.tagl(p)) > 0 ==> forall k :: 0 <= k && k < json.i64len(jvar(fd.typ, old(binary.tagv(p)))) ==> \
+//@       (*out)[old(len(*out)) + k] == json.i64dig(jvar(fd.typ, old(binary.tagv(p))), k)
+//@   ensures sf32: fd.typ == proto.SFIX32 && err == nil ==> len(*out) == old(len(*out)) + json.i64len(int64(int32(protowire.le32(p.Buf, old(p.Read)))))
+//@   ensures f32: fd.typ == proto.FIX32 && err == nil ==> len(*out) == old(len(*out)) + json.i64len(int64(protowire.le32(p.Buf, old(p.Read))))
+//@   ensures sf64: fd.typ == proto.SFIX64 && err == nil ==> len(*out) == old(len(*out)) + json.i64len(int64(protowire.le64(p.Buf, old(p.Read))))
+//@   ensures dlen: fd.typ == proto.DOUBLE && old(p.Read) + 8 <= len(p.Buf) ==> err == nil && p.Read == old(p.Read) + 8 && \
+//@       len(*out) == old(len(*out)) + json.f64len(protowire.le64(p.Buf, old(p.Read)))
+//@   ensures ddigits: fd.typ == proto.DOUBLE && old(p.Read) + 8 <= len(p.Buf) ==> forall k :: 0 <= k && k < json.f64len(protowire.le64(p.Buf, old(p.Read))) ==> \
+//@       (*out)[old(len(*out)) + k] == json.f64dig(protowire.le64(p.Buf, old(p.Read)), k)
+//@   ensures btrue: fd.typ == proto.BOOL && old(binary.tagl(p)) > 0 && old(binary.tagv(p)) == 1 ==> err == nil && len(*out) == old(len(*out)) + 4 && \
+//@       (*out)[old(len(*out))] == 0x74 && (*out)[old(len(*out))+1] == 0x72 && (*out)[old(len(*out))+2] == 0x75 && (*out)[old(len(*out))+3] == 0x65
+//@   ensures bfalse: fd.typ == proto.BOOL && old(binary.tagl(p)) > 0 && old(binary.tagv(p)) == 0 ==> err == nil && len(*out) == old(len(*out)) + 5 && (*out)[old(len(*out))] == 0x66
+//@   ensures prefix: forall i :: 0 <= i && i < old(len(*out)) ==> (*out)[i] == old((*out)[i])
+//@   modifies *out, (*out)[len(*out):cap(*out)], p.Read
